@@ -279,6 +279,8 @@ def gen_tables(repo, out):
     A("/-- svg._INHERIT_ATTRIB_HANDLERS: attribute name ↦ handler function name (insertion order) -/")
     A("def inheritHandlers : List (String × String) := " + lean_list("(%s, %s)" % (lean_str(k), lean_str(v)) for k, v in handler_kind.items()))
     A("def inheritableAttrib : List String := " + lean_list(lean_str(x) for x in sorted(svg_mod._INHERITABLE_ATTRIB)))
+    A("/-- svg._NESTED_SVG_PRESENTATION_ATTRIB: what a nested svg hands on to the group that replaces it -/")
+    A("def nestedSvgPresentationAttrib : List String := " + lean_list(lean_str(x) for x in sorted(getattr(svg_mod, "_NESTED_SVG_PRESENTATION_ATTRIB", frozenset()))))
     A("def inheritableAttribDefaults : List (String × String) := " + lean_list("(%s, %s)" % (lean_str(k), lean_str(v)) for k, v in svg_mod._INHERITABLE_ATTRIB_DEFAULTS.items()))
     A("def gradientTransformNdigits : Nat := %d" % svg_mod._GRADIENT_TRANSFORM_NDIGITS)
     A("def maxPctErrorBits : Nat := " + lean_float(svg_mod._MAX_PCT_ERROR))
